@@ -200,6 +200,38 @@ def run(ctx):
                 ctx.count('eigenspectrum_traces', 1, nontrivial_key=repr(H.terms))
                 if abs(np.sum(ev) - np.trace(Md)) > 1e-8 or abs(np.sum(np.asarray(ev) ** 2) - np.trace(Md @ Md)) > 1e-7 or len(ev) != 2 ** n:
                     ctx.violation('C06 eigenspectrum: trace identities violated', {'terms': repr(H.terms), 'n_qubits': n})
+    # ---- eigen-solver wrappers and small helpers (numerical): get_ground_state, get_gap, sparse_eigenspectrum, get_density_matrix, inner_product, generate_linear_qubit_operator
+    from openfermion.linalg.linear_qubit_operator import generate_linear_qubit_operator
+    for i in range(N(30, 200)):
+        n = rng.choice([2, 3, 4])
+        qop = mk_qubit(of, rand_qubit_terms(rng, n, rng.randint(1, 6)))
+        H = qop + of.hermitian_conjugated(qop) + of.QubitOperator(((n - 1, 'Z'),), 0.5)
+        Ms = of.get_sparse_operator(H, n_qubits=n); Md = dense(Ms); w = np.linalg.eigvalsh(Md)
+        rp = {'n_qubits': n, 'terms': {repr(t): repr(c) for t, c in H.terms.items()}}
+        ctx.count('eigen_wrappers', 1, nontrivial_key=repr(H.terms))
+        try:
+            e0, v0 = st.get_ground_state(Ms); v0 = np.asarray(v0).reshape(-1)
+            if abs(e0 - w[0]) > 1e-8 or np.linalg.norm(Md @ v0 - e0 * v0) > 1e-6 or abs(np.linalg.norm(v0) - 1) > 1e-8:
+                ctx.violation('C06 get_ground_state: not the normalised lowest eigenpair (returned %r, lowest eigenvalue %r)' % (float(e0), float(w[0])), dict(rp, call='get_ground_state'))
+            gap = st.get_gap(Ms)
+            if abs(gap - (w[1] - w[0])) > 1e-7:
+                ctx.violation('C06 get_gap %r differs from the difference of the two lowest eigenvalues %r' % (float(gap), float(w[1] - w[0])), dict(rp, call='get_gap'))
+            se = st.sparse_eigenspectrum(Ms)
+            if len(se) != 2 ** n or np.max(np.abs(np.sort(np.real(se)) - w)) > 1e-8 or list(np.real(se)) != sorted(np.real(se)):
+                ctx.violation('C06 sparse_eigenspectrum differs from the sorted dense spectrum', dict(rp, call='sparse_eigenspectrum'))
+            xs = [np.array([complex(dy(rng), dy(rng)) for _ in range(2 ** n)]) for _ in range(3)]; ps = [0.5, 0.25, 0.25]
+            rho = dense(st.get_density_matrix(xs, ps))
+            if not np.allclose(rho, sum(p_ * np.outer(x_, x_.conj()) for p_, x_ in zip(ps, xs)), atol=1e-12):
+                ctx.violation('C06 get_density_matrix differs from sum_k p_k |psi_k><psi_k|', dict(rp, call='get_density_matrix', states=[repr(x_.tolist()) for x_ in xs]))
+            ip = st.inner_product(xs[0], xs[1])
+            if abs(ip - sum(np.conj(a) * b for a, b in zip(xs[0], xs[1]))) > 1e-12:
+                ctx.violation('C06 inner_product differs from sum conj(a_k) b_k', dict(rp, call='inner_product'))
+            for opts in (None, LinearQubitOperatorOptions(processes=3, pool=FakePool(orders['reversed']))):
+                lo = generate_linear_qubit_operator(H, n, opts)
+                if not np.allclose(np.asarray(lo * xs[2]).reshape(-1), Md @ xs[2], atol=1e-9):
+                    ctx.violation('C06 generate_linear_qubit_operator (options %s): matvec differs from the matrix' % ('None' if opts is None else 'parallel'), dict(rp, call='generate_linear_qubit_operator'))
+        except Exception as e:
+            ctx.violation('C06 eigen-solver wrappers raised %s: %s' % (type(e).__name__, e), rp)
     ctx.sample({'part': 'qubit_sparse', 'note': 'every entry of the scipy matrix is compared with <r|op|c> computed from the Pauli semantics, big-endian'})
     res = coq_eval_bools(ctx, 'c06', IMPORTS, items, chunk=20)
     judge(ctx, res, meta, 'C06')
